@@ -377,7 +377,7 @@ def run_addr_sweep(res, part):
     for n, (sa, inum) in enumerate(pairs):
         if n % 4 != part:
             continue
-        for form in ("obj", "int"):
+        for form in ("obj", "int") + (("sub",) if sa in (0, 5, 63) and inum in (0, 1, 31) else ()):
             def world():
                 insts = [D.Instance(itype=1, resolution=10, value=0x155, scheme=1, filt=0x111111) for _ in range(32)]
                 insts[inum] = D.Instance(itype=1, resolution=10, value=0x2A6, scheme=4, filt=0x5A5A5A)
@@ -386,6 +386,9 @@ def run_addr_sweep(res, part):
                 by = D.Device(short=(sa + 1) % 64, instances=[D.Instance(itype=1, resolution=10, value=0x3FF, scheme=3, filt=0x222222) for _ in range(32)])
                 return dev, by, D.Bus24([dev, by])
             a, i = (DeviceShort(sa), InstanceNumber(inum)) if form == "obj" else (sa, inum)
+            if form == "sub":       # instances of application subclasses of the address / instance classes
+                a = type("LabelledDeviceShort", (DeviceShort,), {"label": "sensor"})(sa)
+                i = type("LabelledInstanceNumber", (InstanceNumber,), {"label": "button"})(inum)
             case = {"t": "addr_sweep", "sa": sa, "inum": inum, "form": form}
 
             def untouched(dev, by):
